@@ -20,7 +20,8 @@
 (***************************************************************************)
 EXTENDS Integers, Sequences, FiniteSets, TLC
 
-CONSTANT None   \* "no node" (0 in the implementation)
+CONSTANT None,          \* "no node" (0 in the implementation)
+         TrackClients   \* maintain the client ledger (C07); FALSE keeps it out of the state of models that do not need it
 
 Max(a, b) == IF a >= b THEN a ELSE b
 Min(a, b) == IF a <= b THEN a ELSE b
@@ -60,15 +61,22 @@ NewestCfgIdx(s) == IF CfgIdxs(s) = {} THEN 0 ELSE SetMax(CfgIdxs(s))
 (*  bad       : set of strings   -- action-level violations seen so far     *)
 
 GhostInit(N) == [elected |-> {}, grants |-> {}, committed |-> << >>,
-                 maxTerm |-> [n \in N |-> 0], acks |-> {}, bad |-> {}, acked |-> [n \in N |-> 0]]
+                 maxTerm |-> [n \in N |-> 0], acks |-> {}, bad |-> {}, acked |-> [n \in N |-> 0],
+                 \* client ledger (C07): logical clock, submitted updates, completed updates, reads/barriers awaiting an answer
+                 clock |-> 0, subs |-> {}, upd |-> {}, reads |-> {}]
 
 IsGrantEv(ev) == /\ "kind" \in DOMAIN ev /\ ev.kind = "voteReq"
                  /\ "result" \in DOMAIN ev /\ ev.result = "success"
 
 SelfVotes(ns, T) == {<<n, ns[n].term, n>> : n \in {m \in T : ns[m].up /\ ns[m].state = "C" /\ ns[m].vote = m}}
 
+\* the commit index node n reached in this step (a node that stopped in the very step that committed - a leader
+\* removing itself - is known through its commit decision, observed as a `commit` act)
+CommitActIdx(ev, n) == LET S == {a.index : a \in {b \in (IF "acts" \in DOMAIN ev THEN ev.acts ELSE {}) : b.kind = "commit" /\ b.n = n}}
+                       IN IF S = {} THEN 0 ELSE SetMax(S)
+CommitOf(ns, ev, n) == IF ns[n].up THEN ns[n].commit ELSE CommitActIdx(ev, n)
 \* the node (if any) whose commit index now exceeds the ledger
-Committers(gh, ns, T) == {n \in T : ns[n].up /\ ns[n].commit > Len(gh.committed)}
+Committers(gh, ns, ev, T) == {n \in T : CommitOf(ns, ev, n) > Len(gh.committed)}
 
 DurMajority(ns, vs, i, e) ==
     LET holders == {v \in vs : v \in DOMAIN ns /\ DurableHas(ns[v], i, e)}
@@ -89,10 +97,10 @@ LedgerItem(ns, ev, n, i) ==
     ELSE [e |-> [t |-> 0, y |-> "?", v |-> 0, c |-> << >>], ct |-> ns[n].term, known |-> FALSE, dur |-> TRUE, by |-> n]
 
 ExtendCommitted(gh, ns, ev, T) ==
-    IF Committers(gh, ns, T) = {} THEN gh.committed
-    ELSE LET n == CHOOSE m \in Committers(gh, ns, T) : \A k \in Committers(gh, ns, T) : ns[k].commit <= ns[m].commit
+    IF Committers(gh, ns, ev, T) = {} THEN gh.committed
+    ELSE LET n == CHOOSE m \in Committers(gh, ns, ev, T) : \A k \in Committers(gh, ns, ev, T) : CommitOf(ns, ev, k) <= CommitOf(ns, ev, m)
              from == Len(gh.committed) + 1
-         IN gh.committed \o [k \in 1..(ns[n].commit - Len(gh.committed)) |-> LedgerItem(ns, ev, n, from + k - 1)]
+         IN gh.committed \o [k \in 1..(CommitOf(ns, ev, n) - Len(gh.committed)) |-> LedgerItem(ns, ev, n, from + k - 1)]
 
 \* action-level checks, evaluated on (before, after, ev)
 SameInc(b, a) == b.up /\ a.up /\ b.inc = a.inc
@@ -186,6 +194,43 @@ NoEntriesDuringTransferStep(before, after, T) ==
                      /\ before[n].term = after[n].term /\ after[n].state = "L")
                   => Last(after[n]) = Last(before[n])
 
+\* ---- client-visible semantics (C07)
+\* a client submission is one step: ev.kind = "client" with op / val / task (the harness lists them under ev.ops)
+IsClientEv(ev) == "kind" \in DOMAIN ev /\ ev.kind = "client"
+EvOp(ev)   == IF "ops" \in DOMAIN ev THEN ev.ops[1].op ELSE IF "op" \in DOMAIN ev THEN ev.op ELSE "update"
+EvVal(ev)  == IF "ops" \in DOMAIN ev THEN ev.ops[1].val ELSE ev.val
+EvTask(ev) == IF "ops" \in DOMAIN ev THEN ev.ops[1].task ELSE IF "task" \in DOMAIN ev THEN ev.task ELSE ev.val
+Range(f) == {f[i] : i \in DOMAIN f}
+PosIn(f, v) == CHOOSE i \in DOMAIN f : f[i] = v
+\* updates this leader itself accepted (appended in its current term) and still has in its log
+OwnTermUpdates(s) == {s.log[k].v : k \in {j \in DOMAIN s.log : s.log[j].y = "upd" /\ s.log[j].t = s.term}}
+ClientLedger(gh, after, ev) ==
+    IF ~TrackClients THEN [clock |-> gh.clock, subs |-> gh.subs, reads |-> gh.reads, upd |-> gh.upd] ELSE
+    \* the clock ticks only at client events (submissions, completions of updates)
+    LET now   == IF IsClientEv(ev) \/ \E x \in DoneOf(ev) : x.op = "update" THEN gh.clock + 1 ELSE gh.clock
+        subs1 == IF IsClientEv(ev) /\ EvOp(ev) = "update" THEN gh.subs \cup {[val |-> EvVal(ev), n |-> ev.n, at |-> now]} ELSE gh.subs
+        reads1 == IF IsClientEv(ev) /\ EvOp(ev) \in {"read", "barrier"} /\ ev.state = "L" /\ after[ev.n].up
+                  THEN gh.reads \cup {[n |-> ev.n, task |-> EvTask(ev), need |-> OwnTermUpdates(after[ev.n])]} ELSE gh.reads
+        upd1  == gh.upd \cup {[val |-> d.val, res |-> d.res, pos |-> d.pos, at |-> now, n |-> d.n] : d \in {x \in DoneOf(ev) : x.op = "update"}}
+    IN [clock |-> now, subs |-> subs1, reads |-> reads1, upd |-> upd1]
+\* a completed update is in the state machine of the node that completed it, at the reported position
+UpdateAtPosStep(after, ev) ==
+    \A d \in DoneOf(ev) : (d.op = "update" /\ d.res = "ok" /\ after[d.n].up) =>
+        (d.pos >= 1 /\ d.pos <= Len(after[d.n].fsmCmds) /\ after[d.n].fsmCmds[d.pos] = d.val)
+\* a read / barrier answered by a leader reflects every update that leader had accepted before it
+ReadsReflectStep(gh, after, ev) ==
+    \A d \in DoneOf(ev) : (d.op \in {"read", "barrier"} /\ d.res = "ok") =>
+        \A r \in ClientLedger(gh, after, ev).reads : (r.n = d.n /\ r.task = d.task) =>
+            IF d.op = "read" THEN r.need \subseteq Range(d.rd)
+            ELSE (after[d.n].up => r.need \subseteq Range(after[d.n].fsmCmds))
+\* no read (dirty reads on any node included) exposes an update that is not committed: what it returns is a prefix of
+\* the committed updates
+ReadsCommittedStep(gh1, ev) ==
+    \A d \in DoneOf(ev) : (d.op \in {"read", "dirty"} /\ d.res = "ok") =>
+        LET ups == SelectSeq(gh1.committed, LAMBDA c : c.e.y = "upd")
+        IN (\A i \in 1..Len(gh1.committed) : gh1.committed[i].known) =>
+             (Len(d.rd) <= Len(ups) /\ \A i \in 1..Len(d.rd) : d.rd[i] = ups[i].e.v)
+
 \* ---- end of a recorded run: every node was shut down; tasks and (after a fair, fault-free continuation) convergence
 IsFinal(ev) == "kind" \in DOMAIN ev /\ ev.kind = "final"
 AllTasksCompleteStep(ev) == IsFinal(ev) => Len(ev.pending) = 0
@@ -204,6 +249,8 @@ StepViolations(gh, before, after, ev, T) ==
   \cup (IF AllTasksCompleteStep(ev) THEN {} ELSE {"C15_AllTasksComplete"})
   \cup (IF TaskCompletesOnceStep(ev) THEN {} ELSE {"C15_TaskCompletesOnce"})
   \cup (IF ConvergesStep(ev) THEN {} ELSE {"C17_Converges"})
+  \cup (IF UpdateAtPosStep(after, ev) THEN {} ELSE {"C07_UpdateAtReportedPosition"})
+  \cup (IF ReadsReflectStep(gh, after, ev) THEN {} ELSE {"C07_ReadsReflectAccepted"})
   \cup (IF TransferSuccessStep(before, after, ev) THEN {} ELSE {"C16_SuccessMeansSteppedDown"})
   \cup (IF TransferTargetStep(ev) THEN {} ELSE {"C16_TargetEligible"})
   \cup (IF NoEntriesDuringTransferStep(before, after, T) THEN {} ELSE {"C16_NoNewEntriesDuringTransfer"})
@@ -222,7 +269,11 @@ GhostStep(gh, before, after, ev, T) ==
      maxTerm   |-> [n \in DOMAIN gh.maxTerm |-> IF n \in T /\ after[n].up THEN Max(gh.maxTerm[n], after[n].term) ELSE gh.maxTerm[n]],
      acks      |-> gh.acks,
      acked     |-> [n \in DOMAIN gh.acked |-> IF n \in T \/ IsAppendAck(ev) THEN AckedAfter(gh, before, after, ev, n) ELSE gh.acked[n]],
-     bad       |-> gh.bad \cup StepViolations(gh, before, after, ev, T)]
+     clock     |-> ClientLedger(gh, after, ev).clock, subs |-> ClientLedger(gh, after, ev).subs,
+     upd       |-> ClientLedger(gh, after, ev).upd,
+     reads     |-> ClientLedger(gh, after, ev).reads,
+     bad       |-> gh.bad \cup StepViolations(gh, before, after, ev, T)
+                         \cup (IF DoneOf(ev) = {} \/ ReadsCommittedStep([committed |-> ExtendCommitted(gh, after, ev, T)], ev) THEN {} ELSE {"C07_ReadsOnlyCommitted"})]
 
 --------------------------------------------------------------------------
 (* State predicates over (gh, ns)                                          *)
@@ -294,7 +345,8 @@ VoterDelta(a, b) == (Voters(a) \ Voters(b)) \cup (Voters(b) \ Voters(a))
 C08_OneVoterDelta(ns) ==
     \A n \in DOMAIN ns : \A i \in CfgIdxs(ns[n]) :
         /\ Voters(EntryAt(ns[n], i).c) # {}
-        /\ (i > 1 /\ (CfgIdxs(ns[n]) \cap 1..(i - 1) # {} \/ ns[n].snapCfg.index > 0))
+        \* (the predecessor is known only if an earlier entry is still in the log, or the snapshot ends before entry i)
+        /\ (i > 1 /\ (CfgIdxs(ns[n]) \cap 1..(i - 1) # {} \/ (ns[n].snapCfg.index > 0 /\ ns[n].snapIdx < i)))
               => Cardinality(VoterDelta(EntryAt(ns[n], i).c, PrevCfgNodes(ns[n], i))) <= 1
 C08_ConfigOnlyWhenSafe(gh) == "C08_ConfigOnlyWhenSafe" \notin gh.bad
 
@@ -327,6 +379,23 @@ C12_LabelOK(gh, ns) ==
 C10_RestartOK(gh) == "C10_RestartOK" \notin gh.bad
 
 \* C17(a): leader stickiness
+\* C07 state predicates over the client ledger
+C07_UpdateAtReportedPosition(gh) == "C07_UpdateAtReportedPosition" \notin gh.bad
+C07_ReadsReflectAccepted(gh) == "C07_ReadsReflectAccepted" \notin gh.bad
+C07_ReadsOnlyCommitted(gh) == "C07_ReadsOnlyCommitted" \notin gh.bad
+\* each update takes effect at most once (exactly once if it completed successfully: see UpdateAtReportedPosition)
+C07_AtMostOnce(ns) == \A n \in DOMAIN ns : ns[n].up =>
+    \A i, j \in DOMAIN ns[n].fsmCmds : ns[n].fsmCmds[i] = ns[n].fsmCmds[j] => i = j
+\* an update rejected definitively never takes effect
+C07_RejectedNeverApplied(gh, ns) ==
+    \A u \in gh.upd : u.res \in {"notLeader", "inProgress"} =>
+        \A n \in DOMAIN ns : ns[n].up => u.val \notin Range(ns[n].fsmCmds)
+\* an update completed before another was submitted precedes it in every state machine
+C07_RealTimeOrder(gh, ns) ==
+    \A u \in gh.upd : u.res = "ok" =>
+        \A s \in gh.subs : s.at > u.at =>
+            \A n \in DOMAIN ns : (ns[n].up /\ s.val \in Range(ns[n].fsmCmds)) =>
+                (u.val \in Range(ns[n].fsmCmds) /\ PosIn(ns[n].fsmCmds, u.val) < PosIn(ns[n].fsmCmds, s.val))
 C16_SuccessMeansSteppedDown(gh) == "C16_SuccessMeansSteppedDown" \notin gh.bad
 C16_TargetEligible(gh) == "C16_TargetEligible" \notin gh.bad
 C16_NoNewEntriesDuringTransfer(gh) == "C16_NoNewEntriesDuringTransfer" \notin gh.bad
